@@ -125,6 +125,9 @@ def judge_format(acc, f):
                 if fmt_of(s) != f:
                     bad('fxp_sum', 'fxp_sum(dtype=%r) gives %s' % (spell_fxp(f, cplx), s.dtype), complex=cplx)
         acc.states.add(tuple(f))
+        acc.outcome('format_round_trips')
+        acc.outcome('n_frac<0' if f.n_frac < 0 else ('n_frac>n_word' if f.n_frac > f.n_word else 'n_frac_in_word'))
+        acc.outcome('q_parseable' if f.n_word - f.n_frac >= 0 else 'q_not_parseable')
     except Exception as e:
         acc.violation('exception', case, '%s raised %r' % (spell_fxp(f), e), {'part': 'F', 'exc': type(e).__name__})
     acc.sample(case, 1)
